@@ -59,7 +59,8 @@ COVERAGE_TARGETS = [f'rej:{k}:{r}:{e}' for k, e in (('plain', 'ValueError'), ('r
                     for r in ('set', 'update', 'ctxEnter')] + \
                    ['rej:gen:set:TypeError', 'rej:gen:setCls:TypeError', 'rej:gen:update:TypeError', 'rej:gen:ctxEnter:TypeError',
                     'update:ev:first:ValueError', 'update:ev:last:ValueError', 'update:ev:first:TypeError', 'update:ev:first:ok',
-                    'ctxEnter:ev:first:ok', 'srcSet:rejected-sync', 'rej:plain:setCls:ValueError', 'rej:readonly:setCls:TypeError', 'rej:plain:later:update:ValueError',
+                    'ctxEnter:ev:first:ok', 'srcSet:rejected-sync', 'shared:set:ref:ok', 'shared:set:plain:ValueError', 'shared:set:ref:ValueError',
+                    'rej:plain:setCls:ValueError', 'rej:readonly:setCls:TypeError', 'rej:plain:later:update:ValueError',
                     'rej:ref:later:update:ValueError', 'set:plain:linked:ValueError', 'set:ref:linked:ValueError', 'set:ref:free:ValueError',
                     'set:plain:linked:TypeError', 'set:ref:linked:TypeError']
 PROP = 'C02'
@@ -97,7 +98,7 @@ def directed():
     }
     for (lk, ref), late, kind, route in itertools.product(links.items(), (False, True), R.REJ_KINDS, R.REJ_ROUTES):
         src = [list(r) for r in src0]
-        pds = [dict(p) for p in R.STD]
+        pds = R.shared_params(R.STD) if (late and route in ('set', 'update', 'ctxEnter') and lk in ('par', 'rx')) else [dict(p) for p in R.STD]
         # the prior link sits on the parameter that will be attacked whenever that is possible
         slot = {'plain': 0, 'ref': 0, 'nested': 2, 'const': 3, 'readonly': 0, 'gen': 0}[kind]
         if lk == 'nested':
@@ -153,7 +154,4 @@ def cases(rng, tier, worker, nworkers):
 
 
 def classify(case, impl, fail):
-    why = str(fail.get('why', ''))
-    if fail.get('kind') == 'counterexample' and 'finding:rejected-class-assignment-copies-inherited-parameter' in why:
-        return 'rejected-class-assignment-copies-inherited-parameter'
     return None
